@@ -1,3 +1,4 @@
 -- Root of the `ClipperVerif` library: every module that must build.
 import ClipperVerif.Spec.Basic
 import ClipperVerif.Driver.All
+import ClipperVerif.Props.C18
